@@ -5,6 +5,7 @@ import (
 	"fmt"
 	"os"
 	"path/filepath"
+	"syscall"
 
 	"github.com/whoisnian/glb/util/osutil"
 )
@@ -23,13 +24,18 @@ func fxRead(p string) ([]byte, bool) {
 func runFilesExtra(cfg Cfg) {
 	s := NewStream(cfg.Out, "files_extra")
 	defer s.Close()
-	s.Rule = "CopyFile/MoveFile onto /dev/full (every write fails with ENOSPC): an error must be returned and the source must keep its content; CopyFile/MoveFile with source or destination spelled through '<dir symlink>/..': the file the kernel resolves must be the one copied/moved; sizes 1 B .. 1 MiB; non-trivial = each (call, scenario, size)"
+	s.Rule = "CopyFile/MoveFile onto a private character device 1:7 (what /dev/full is: every write fails with ENOSPC), beside the source and on another device: either an error is returned and the source keeps its content, or the destination name holds the bytes afterwards; CopyFile/MoveFile with source or destination spelled through '<dir symlink>/..': the file the kernel resolves must be the one copied/moved; sizes 1 B .. 1 MiB; non-trivial = each (call, scenario, size)"
 	rng := NewRng(cfg.Seed)
 	root, err := os.MkdirTemp(cfg.Out, "fx")
 	if err != nil {
 		fatal(err)
 	}
 	defer os.RemoveAll(root)
+	shmDir := ""
+	if d, err := os.MkdirTemp("/dev/shm", "glbverif-fx"); err == nil {
+		shmDir = d
+		defer os.RemoveAll(d)
+	}
 	sizes := []int{1, 4096, 70000}
 	if cfg.Thorough() {
 		sizes = append(sizes, 1<<20)
@@ -37,31 +43,61 @@ func runFilesExtra(cfg Cfg) {
 	for round := 0; round < cfg.N(3, 20); round++ {
 		for _, size := range sizes {
 			content := rng.Bytes(size)
-			// ---- A: destination that cannot be written
-			if _, err := os.Stat("/dev/full"); err == nil {
+			// ---- A: destination that cannot be written: a PRIVATE character device 1:7 (what /dev/full is),
+			// made in a scratch directory on another device (so that a move has to copy) and beside the
+			// source. The system's /dev/full itself is never used: an implementation is free to replace the
+			// destination name by a new file (write aside + rename), and that must not hit a system node.
+			for _, where := range []string{"other-device", "same-device"} {
+				dir := root
+				if where == "other-device" {
+					dir = shmDir
+				}
+				if dir == "" {
+					continue
+				}
 				for _, call := range []string{"copy", "move"} {
+					if call == "move" && where == "same-device" {
+						continue // a plain rename onto the node: nothing is written at all
+					}
+					node := filepath.Join(dir, "full")
+					os.Remove(node)
+					if err := syscall.Mknod(node, syscall.S_IFCHR|0o666, 1<<8|7); err != nil {
+						if round == 0 && size == sizes[0] {
+							s.Notes = append(s.Notes, "mknod of a private full device failed ("+err.Error()+"): failing-destination cases skipped")
+						}
+						continue
+					}
 					src := filepath.Join(root, fmt.Sprintf("a%d_%d_%s", round, size, call))
 					os.WriteFile(src, content, 0o644)
 					var cerr error
 					if call == "copy" {
-						_, cerr = osutil.CopyFile(src, "/dev/full")
+						_, cerr = osutil.CopyFile(src, node)
 					} else {
-						cerr = osutil.MoveFile(src, "/dev/full")
+						cerr = osutil.MoveFile(src, node)
 					}
 					got, ok := fxRead(src)
-					sc := map[string]any{"call": call, "src_size": size, "dst": "/dev/full"}
+					sc := map[string]any{"call": call, "src_size": size, "dst": "a character device 1:7 (like /dev/full), " + where}
 					if cerr == nil {
-						s.Violate(call+"-ok-destination-wrong", fmt.Sprintf("%s(src, /dev/full) returned nil although no byte can be written there (source still present: %v)", call, ok), sc)
+						// success is only truthful if the destination NAME now holds the bytes (the node was replaced)
+						st, serr := os.Lstat(node)
+						var dgot []byte
+						if serr == nil && st.Mode().IsRegular() {
+							dgot, _ = fxRead(node)
+						}
+						if !bytes.Equal(dgot, content) || len(content) == 0 {
+							s.Violate(call+"-ok-destination-wrong", fmt.Sprintf("%s(src, <full device>) returned nil although the destination does not hold the %d bytes (every write to it fails; source still present: %v)", call, size, ok), sc)
+						} else {
+							s.Count("devfull.node-replaced-by-file")
+						}
 					}
-					if !ok || !bytes.Equal(got, content) {
-						s.Violate(call+"-error-source-lost", fmt.Sprintf("%s(src, /dev/full): the source no longer holds its %d bytes (present=%v, len=%d)", call, size, ok, len(got)), sc)
+					if (cerr != nil || call == "copy") && (!ok || !bytes.Equal(got, content)) {
+						s.Violate(call+"-error-source-lost", fmt.Sprintf("%s(src, <full device>) = %v: the source no longer holds its %d bytes (present=%v, len=%d)", call, cerr, size, ok, len(got)), sc)
 					}
 					os.Remove(src)
+					os.Remove(node)
 					s.Evaluations++
-					s.Nontrivial(fmt.Sprintf("devfull/%s/%d", call, size))
+					s.Nontrivial(fmt.Sprintf("devfull/%s/%s/%d", where, call, size))
 				}
-			} else if round == 0 {
-				s.Notes = append(s.Notes, "/dev/full not available: failing-destination cases skipped")
 			}
 			// ---- B: "<dir symlink>/.." in the path
 			for _, call := range []string{"copy-src", "copy-dst", "move-src", "move-dst"} {
@@ -119,5 +155,5 @@ func runFilesExtra(cfg Cfg) {
 			}
 		}
 	}
-	s.Sample(map[string]any{"A": "CopyFile(src, /dev/full) / MoveFile(src, /dev/full)", "B": "CopyFile(<dir>/link/../f, plain) with link -> real/sub"})
+	s.Sample(map[string]any{"A": "CopyFile(src, <private full device>) / MoveFile(src, <private full device on another device>)", "B": "CopyFile(<dir>/link/../f, plain) with link -> real/sub"})
 }
